@@ -127,6 +127,7 @@ type VerifCtx struct {
 	lockSlots       map[string]bool
 	disc            func(ex *Exec, st *State, p PtrV, write bool, pc *Term, pos token.Pos)
 	axioms          map[*types.Package]*Contract
+	chanKinds map[string]string
 	externs         [][2]string
 }
 
@@ -135,7 +136,7 @@ type fieldDiscipline struct {
 	Arg  string
 }
 
-var clauseKW = regexp.MustCompile(`^(func|props|requires|ensures|modifies|loop|label|inline|trusted|pure|import|replay|noframe|field|lockorder|lemma|spec|axiom|at|extern|exclusive|acquires|role|withinit|unfolds|pointsonly)\b`)
+var clauseKW = regexp.MustCompile(`^(func|props|requires|ensures|modifies|loop|label|inline|trusted|pure|import|replay|noframe|field|lockorder|lemma|spec|axiom|at|extern|chan|exclusive|acquires|role|withinit|unfolds|pointsonly)\b`)
 
 type rawContract struct {
 	header string
@@ -185,7 +186,7 @@ func parseContractFile(path string) (imports []string, raws []*rawContract, file
 				cur = &rawContract{header: body, line: i + 1}
 				raws = append(raws, cur)
 				continue
-			case "field", "lockorder", "extern":
+			case "field", "lockorder", "extern", "chan":
 				fileDirectives = append(fileDirectives, rawLine{body, i + 1})
 				continue
 			case "axiom":
@@ -634,6 +635,15 @@ func (c *VerifCtx) parseDirective(text string) {
 			}
 			c.fieldDisc[f[1]] = d
 		}
+	case "chan":
+		// chan <Type>.<field> closeonly : channel discipline of a field that also
+		// has an access discipline (guarded_by ...) declared with `field`
+		if len(f) >= 3 {
+			if c.chanKinds == nil {
+				c.chanKinds = map[string]string{}
+			}
+			c.chanKinds[f[1]] = f[2]
+		}
 	case "extern":
 		// extern <callee substring> nonnil : results of this unmodelled callee are non-nil
 		if len(f) >= 3 {
@@ -780,6 +790,9 @@ func (c *VerifCtx) chanDisc(v ssa.Value) string {
 		return ""
 	}
 	st := nt.Underlying().(*types.Struct)
+	if k := c.chanKinds[nt.Obj().Name()+"."+st.Field(fa.Field).Name()]; k != "" {
+		return k
+	}
 	return c.fieldDisc[nt.Obj().Name()+"."+st.Field(fa.Field).Name()].Kind
 }
 
